@@ -785,7 +785,10 @@ AnyP::Uri::absolutePath() const
 {
     if (absolutePath_.isEmpty()) {
         // TODO: Encode each URI subcomponent in path_ as needed.
-        absolutePath_ = Encode(path(), PathChars());
+        // path_ holds the path and the query: the first '?' delimits them and
+        // '?' is a legal query character, so it must not be percent-encoded.
+        static const auto pathAndQueryChars = CharacterSet(PathChars()).add('?').rename("path-and-query");
+        absolutePath_ = Encode(path(), pathAndQueryChars);
     }
 
     return absolutePath_;
